@@ -32,10 +32,10 @@ def merge_len(upper, lower):
     return lower + upper
 
 
-def restrict(node, dropped, suppress, suppress_preexisting=None):
+def restrict(node, dropped, suppress):
     """Expected tree below `node` when every node for which dropped(n) is true is
     taken away together with its subtree, and every internal node left without
-    children is taken away as well unless keep_empty(n).
+    children is taken away as well.
 
     dropped: callable(node) -> bool, asked for leaves and internal nodes
     suppress: merge nodes left with exactly one child into that child
